@@ -197,7 +197,14 @@ class Engine:
                z3.If(S.is_VNone(t), ids["builtins:NoneType"],
                z3.If(S.is_VStr(t), ids["builtins:str"],
                z3.If(S.is_VReal(t), ids["builtins:float"],
-               z3.If(S.is_VEnum(t), S.ecls(t), ids["builtins:builtin_all"])))))))
+               z3.If(S.is_VEnum(t), self._enum_cls(t), ids["builtins:builtin_all"])))))))
+
+    def _enum_cls(self, t):
+        eids = sorted(self.class_ids[k] for k in self.enum_ids)
+        e = S.ecls(t)
+        if not eids:
+            return z3.IntVal(0)
+        return z3.If(z3.Or([e == i for i in eids]), e, z3.IntVal(0))
 
     def concrete_subclasses(self, c):
         return [c] + sorted(c.subclasses, key=lambda x: x.key)
